@@ -202,7 +202,8 @@ Definition leaf_value (tk : tkind) (fname : string) : jt :=
 Definition elem_nonnull_of (t : gtype) : bool := match t with TList e _ => nonnull_of e | _ => false end.
 
 (** one log entry per user-code invocation *)
-Inductive logent := LResolver (p : path) | LGuard (p : path).
+Inductive logent := LResolver (p : path) | LGuard (p : path)
+                 | LDefer (p : path) (label : string).   (* this field of a non-root object is delivered in the deferred group [label] *)
 
 (** * Building the outcome tree (collection + resolver calls), with fuel for selection depth. *)
 Section Build.
@@ -245,8 +246,14 @@ Section Build.
                        | GPanic tag => (Some (NFail (EPanic tag)), [LGuard fp])
                        end
                      else (None, []) in
+                   (* object.gotpl: a concurrently resolved field of a non-root object that was collected
+                      from a fragment with @defer goes to that label's deferred group *)
+                   let lgd := match p, c_defer cf with
+                              | _ :: _, Some l => if f_resolver fd then [LDefer fp l] else []
+                              | _, _ => []
+                              end in
                    match blocked with
-                   | Some n => (out ++ [(key, nn, n)], lg ++ lg1)
+                   | Some n => (out ++ [(key, nn, n)], lg ++ lgd ++ lg1)
                    | None =>
                        let lg2 := if f_resolver fd then [LResolver fp] else [] in
                        let '(n, lg3) :=
@@ -257,7 +264,7 @@ Section Build.
                          | RTypedNil => (NNil true, [])
                          | RValue => build_val fuel' (f_type fd) (c_name cf) fp op (c_sels cf)
                          end in
-                       (out ++ [(key, nn, n)], lg ++ lg1 ++ lg2 ++ lg3)
+                       (out ++ [(key, nn, n)], lg ++ lgd ++ lg1 ++ lg2 ++ lg3)
                    end
                end in
         let '(out, lg) := fold_left step (col t sels) ([], []) in
